@@ -24,7 +24,8 @@ class Trace:
     def __init__(self, lines, out):
         self.lines = lines
         self.out = [o for o in out if not o.startswith('closes:') and not o.startswith('frees:')]
-        self.recs, self.events, self.ok = align(lines, self.out)
+        self.recs, self.events_all, self.ok = align(lines, self.out)
+        self.events = [e for e in self.events_all if e[0] != 'B']      # 'B': a recorded poll batch, in output order
         self.reg = {}        # handle -> (name, flags, hooks)
         for r in self.recs:
             t = r.op.split()
@@ -475,7 +476,18 @@ def c09(lines, out):
 
     def S(h):
         return sets.setdefault(h, {'fd': {}, 'tmr': {}, 'sub': {}})
-    for kind, inv, r in tr.events:
+
+    for kind, inv, r in tr.events_all:
+        if kind == 'B':
+            # a task source leaves the registry when its poll entry is processed: from the BATCH line that reports it on it
+            # is 'f' (fired: gone or about to go)
+            for e in inv.split()[1:]:
+                f2 = e.split(':')
+                if f2[0] == 'task' and S(f2[1]).setdefault('task', {}).get(f2[2]) == 'o':
+                    S(f2[1])['task'][f2[2]] = 'f'
+            continue
+        # (the entry may also have gone stale - its module paused or stopped by an earlier callback of the batch - and the task
+        # still be registered: 'f' stays "maybe" until the task's event is handed over)
         if kind == 'I':
             cb, hd, h, stt, evs = parse_invoke(inv)
             if (stt in ('S', 'Z') and last.get(h) not in ('S', 'Z')) or cb == 'on_stop':   # on_stop runs right after the sources were dropped
@@ -485,9 +497,25 @@ def c09(lines, out):
                 for k, f in evs:
                     if k == 'fd' and S(h)['fd'].get(f[0][1:]) == 'o': del S(h)['fd'][f[0][1:]]
                     if k == 'tmr' and S(h)['tmr'].get(f[0]) == 'o': del S(h)['tmr'][f[0]]
+                    if k == 'task' and S(h).get('task', {}).get(f[0]) == 'f': del S(h)['task'][f[0]]
             continue
         t = r.op.split()
         res = r.result
+
+        def apply_dump():
+            _, mods = parse_dump(r.dump)
+            for h, m in mods.items():
+                # registering on a stopped module is allowed: only the transition drops the sources
+                if m['state'] in ('S', 'Z') and last.get(h) not in ('S', 'Z'):
+                    sets[h] = {'fd': {}, 'tmr': {}, 'sub': {}}
+                last[h] = m['state']
+            for h in [h for h in last if h not in mods]:
+                del last[h]; sets.pop(h, None)
+        # a registry call does not change any module's state: a stop seen only now happened before it (a refusing start
+        # callback without stop hook, say), so what the call registers is registered after the drop
+        early = r.dump and t[0].startswith(('reg_', 'dereg_', 'sub', 'unsub'))
+        if early:
+            apply_dump()
         if not isint(res):
             continue
         if t[0] in ('reg_fd', 'reg_tmr'):
@@ -511,6 +539,18 @@ def c09(lines, out):
                 S(t[1])[kd].pop(key, None)
             elif key in S(t[1])[kd] and S(t[1])[kd][key] != 'o' and res not in ('-11', '-13', '-1'):
                 v.append(('present_key', '%s on a present key failed with %s' % (r.op, res)))
+        # task sources: keyed by the task id, one-shot by nature, and they cannot be deregistered
+        if t[0] == 'reg_task' and t[1] in tr.reg:
+            st = S(t[1]).setdefault('task', {})
+            if res == '0':
+                if st.get(t[2]) == 'o': v.append(('dup_key', '%s succeeded although the key is registered' % r.op))
+                st[t[2]] = 'o'
+            elif t[2] in st and res not in ('-17', '-11', '-13', '-1', '-22'):
+                v.append(('dup_key', '%s on a present key returned %s' % (r.op, res)))
+        if t[0] == 'dereg_task' and t[1] in tr.reg:
+            if not neg(res): v.append(('task_dereg', '%s returned %s: task sources cannot be deregistered' % (r.op, res)))
+            if r.prev_dump and r.dump and r.dump != r.prev_dump and not r.invokes:
+                v.append(('task_dereg', '%s had an effect' % r.op))
         # signal / pid / path / threshold sources: the same keyed-set behaviour, keyed by the identifying value
         if t[0] in ('reg_sgn', 'reg_pid', 'reg_path', 'reg_thr', 'dereg_sgn', 'dereg_pid', 'dereg_path', 'dereg_thr') and t[1] in tr.reg:
             kd = t[0].split('_')[1]
@@ -540,20 +580,13 @@ def c09(lines, out):
             if t[2] not in S(t[1])['sub']:
                 v.append(('absent_key', '%s succeeded although the topic is absent' % r.op))
             S(t[1])['sub'].pop(t[2], None)
-        if r.dump:
-            _, mods = parse_dump(r.dump)
-            for h, m in mods.items():
-                # registering on a stopped module is allowed: only the transition drops the sources
-                if m['state'] in ('S', 'Z') and last.get(h) not in ('S', 'Z'):
-                    sets[h] = {'fd': {}, 'tmr': {}, 'sub': {}}
-                last[h] = m['state']
-            for h in [h for h in last if h not in mods]:
-                del last[h]; sets.pop(h, None)
+        if r.dump and not early:
+            apply_dump()
         if t[0] == 'srclen' and int(res) >= 0:
             s = S(t[1])
             exp = sum(len(x) for x in s.values())
             # one-shot subscriptions may have been consumed: accept the range
-            lo = exp - sum(1 for x in s['sub'].values() if x == '1') - sum(1 for k in s if k != 'sub' for x in s[k].values() if x == 'o')
+            lo = exp - sum(1 for x in s['sub'].values() if x == '1') - sum(1 for k in s if k != 'sub' for x in s[k].values() if x in ('o', 'f'))
             if not (lo <= int(res) <= exp):
                 v.append(('count', '%s returned %s, the registered sets hold %d' % (r.op, res, exp)))
     return v
@@ -597,6 +630,7 @@ def c03(lines, out):
     owner = {}
     ever = set()
     tm_live, tm_gone, tm_low, batching = set(), set(), set(), set()
+    task_reg = {}      # (module, task id) -> user data of the registration whose event is still to come
     # one-shot subscriptions: (module, user data) -> deliveries since the subscription was made; judged only when that user
     # data value identifies the subscription among all the module ever made
     os_count, ud_topics = {}, {}
@@ -609,6 +643,13 @@ def c03(lines, out):
     for kind, inv, r in tr.events:
         if kind == 'I':
             cb, hd, h, stt, evs = parse_invoke(inv)
+            if cb == 'on_stop' or (stt in ('S', 'Z') and last_state.get(h) not in ('S', 'Z')):
+                # the stop hook runs right after the sources were dropped: what it registers is new
+                for k in [k for k, o in owner.items() if o[0] == h]:
+                    del owner[k]; ever.discard(k)
+                for k in [k for k in task_reg if k[0] == h]:
+                    del task_reg[k]
+                last_state[h] = stt if stt in ('S', 'Z') else 'S'
             if cb == 'on_evt' and r.op.split()[0] != 'unstash' and not any(x.op.split()[0] == 'stash' for x in tr.recs):
                 for k, f in evs:
                     if k == 'ps' and (h, f[4]) in os_count and len(ud_topics.get((h, f[4]), ())) == 1:
@@ -620,6 +661,18 @@ def c03(lines, out):
                     if k == 'tmr' and ('tmr', h, f[0]) in tm_gone and ('tmr', h, f[0]) not in tm_live \
                             and ('tmr', h, f[0]) not in tm_low and h not in batching:
                         v.append(('registered_only', 'event of timer %s delivered to %s although it was deregistered' % (f[0], h)))
+                    if k == 'task':
+                        # (a task source leaves the registry when it fires; with low priority or batching its event is handed
+                        # over later, possibly after the same id was registered again: registrations are a multiset)
+                        regs = task_reg.get((h, f[0]), [])
+                        if not regs:
+                            v.append(('registered_only', 'event of task %s delivered to %s, which has no such task registered' % (f[0], h)))
+                        elif f[2][1:] not in regs:
+                            v.append(('owner', 'event of task %s of %s registered with user data %s delivered with %s' % (f[0], h, ' / '.join('u' + x for x in regs), f[2])))
+                        else:
+                            regs.remove(f[2][1:])      # one event per registration
+                            if int(f[1]) != int(f[2][1:]) + 100:
+                                v.append(('task_result', 'task %s of %s ran with argument %s and returns %d, the event reports %s' % (f[0], h, f[2], int(f[2][1:]) + 100, f[1])))
                     if k == 'fd':
                         o = owner.get(('fd', f[0][1:]))
                         if o is None and ('fd', f[0][1:]) in ever and ('fd', f[0][1:]) not in tm_low and h not in batching:
@@ -638,6 +691,7 @@ def c03(lines, out):
         if t[0] == 'sub' and len(t) == 6 and r.result == '0':
             if t[4] == '1': os_count[(t[1], t[5])] = 0
             else: os_count.pop((t[1], t[5]), None)
+        if t[0] == 'reg_task' and r.result == '0': task_reg.setdefault((t[1], t[2]), []).append(t[4][1:])
         if t[0] == 'reg_tmr' and r.result == '0':
             tm_live.add(('tmr', t[1], t[2])); tm_gone.discard(('tmr', t[1], t[2]))
             (tm_low.add if 'l' in t[3] else tm_low.discard)(('tmr', t[1], t[2]))
@@ -669,6 +723,8 @@ def c03(lines, out):
                 if m['state'] in ('S', 'Z') and last_state.get(h) not in ('S', 'Z'):
                     for k in [k for k, o in owner.items() if o[0] == h]:
                         del owner[k]; ever.discard(k)
+                    for k in [k for k in task_reg if k[0] == h]:
+                        del task_reg[k]
                 last_state[h] = m['state']
     return v
 
